@@ -98,3 +98,36 @@ pub fn control_store_bad(p: &std::path::Path, tmp: &std::path::Path, d: &[u8]) -
     f.sync_all()?;
     Ok(())
 }
+
+// the same protocol split over a helper (good), and a helper whose failure is ignored (bad):
+// exercised through mirlib/inline.py (splice + return-variant threading)
+fn control_write_durably(tmp: &std::path::Path, d: &[u8]) -> std::io::Result<std::fs::File> {
+    use std::io::Write;
+    let mut f = std::fs::File::create(tmp)?;
+    f.write_all(d)?;
+    f.sync_all()?;
+    Ok(f)
+}
+
+pub fn control_store_helper_good(p: &std::path::Path, tmp: &std::path::Path, d: &[u8]) -> std::io::Result<()> {
+    let _f = control_write_durably(tmp, d)?;
+    match std::fs::rename(tmp, p) {
+        Ok(()) => Ok(()),
+        Err(e) => Err(e),
+    }
+}
+
+pub fn control_store_helper_bad(p: &std::path::Path, tmp: &std::path::Path, d: &[u8]) -> std::io::Result<()> {
+    let _f = control_write_durably(tmp, d);
+    std::fs::rename(tmp, p)?;
+    Ok(())
+}
+
+// float comparison inside a "lossless codec" (FLT-1 positive control) and its bit-pattern twin
+pub fn control_float_compare(a: f64, b: f64) -> bool {
+    a == b
+}
+
+pub fn control_bits_compare(a: f64, b: f64) -> bool {
+    a.to_bits() == b.to_bits()
+}
